@@ -456,6 +456,7 @@ def explore(ctx):
 
     # ---- UVS (direct: each sequence is default iff it names the base mapping's glyph)
     rng = ctx.subrng("uvs")
+    uvs_cases, uvs_meta = [], []
     for i in range(ctx.budget(10, 100)):
         desc = {"glyphs": [{"name": "a", "width": 500, "unicodes": [0x61]},
                            {"name": "a.v1", "width": 500, "unicodes": []},
@@ -505,5 +506,20 @@ def explore(ctx):
             ctx.spec_failure(case, "expected %d format-14 subtable(s), got %d" % (1 if want else 0, len(t14))); continue
         got = {vs: dict(lst) for vs, lst in t14[0].uvsDict.items()} if t14 else {}
         ctx.nontriv(("uvs", repr(seqs), odd))
+        # the transcription (Order/Uvs.v) on the same input: selectors and sequences in sorted order, as the binary table keeps them
+        src_sorted = sorted((int(vs, 16), sorted((int(cp, 16), gname) for cp, gname in m.items())) for vs, m in seqs.items())
+        obs_sorted = sorted((vs, sorted(lst)) for vs, lst in (t14[0].uvsDict.items() if t14 else []))
+        uvs_cases.append(G.tup(G.lst([G.s(n) for n in sorted(present)], "str"),
+                               G.lst([G.tup(G.z(u), G.s(n)) for u, n in sorted(best.items())], "(Z * str)"),
+                               G.lst([G.tup(G.z(vs), G.lst([G.tup(G.z(cp), G.s(gn)) for cp, gn in l], "(Z * str)")) for vs, l in src_sorted], "(Z * list (Z * str))"),
+                               G.lst([G.tup(G.z(vs), G.lst([G.tup(G.z(cp), G.opt(None if gn is None else G.s(gn), "str")) for cp, gn in l], "(Z * option str)"))
+                                      for vs, l in obs_sorted], "(Z * list (Z * option str))")))
+        uvs_meta.append(dict(case, uvsDict=jsonable(obs_sorted)))
         if got != want:
             ctx.spec_failure(case, "uvsDict %r, expected %r" % (got, want))
+    vals = ctx.coq_eval("From U2F Require Import Base.Prelude Order.GlyphOrder Order.Uvs.",
+                        "fun c : (list str * cmapping * uvs_src * uvs_out) => let '(gs, m, src, obs) := c in "
+                        "if uvs_out_eqb (uvs_table gs m src) obs then 3 else 2", uvs_cases, chunk=100, tag="Uvs")
+    for v, case in zip(vals, uvs_meta):
+        if v is not None and v != 3:
+            ctx.corr_mismatch(case, "Gallina uvs_table (Order/Uvs.v) differs from the compiled cmap format 14 subtable")
